@@ -94,16 +94,16 @@ Print Assumptions C12_execute_policy.
 
 Definition C12_full_statement : Prop := forall fe, C12_total_statement fe.
 
-(* Twisted TCP dataReceived has no handler: whatever the framer raises escapes, and the bytes
-   stay in the buffer *)
-Theorem C12_twisted_tcp_escapes :
-  forall (FS Req Resp World : Type) (E : env FS Req Resp World) c w cs bs ff e,
+(* Twisted dataReceived / datagramReceived have no handler: whatever the framer raises escapes,
+   and the bytes stay in the buffer *)
+Theorem C12_twisted_escapes :
+  forall (FS Req Resp World : Type) (E : env FS Req Resp World) fe c w cs bs ff e, tw_fe fe ->
     e_listen_only _ _ _ _ E w = false ->
-    e_recv _ _ _ _ E (fargs_for _ _ _ _ E (fc_loop code TwTcp) c w (is_empty bs)) (cs_f _ cs) bs = ([], ff, Some e) ->
-    serve_step _ _ _ _ code E TwTcp c w cs (IData bs) =
+    e_recv _ _ _ _ E (fargs_for _ _ _ _ E (fc_loop code fe) c w (is_empty bs)) (cs_f _ cs) bs = ([], ff, Some e) ->
+    serve_step _ _ _ _ code E fe c w cs (IData bs) =
       (w, {| cs_f := ff; cs_running := cs_running _ cs && true; cs_closed := cs_closed _ cs |}, [], Escape).
-Proof. exact twisted_tcp_escapes. Qed.
-Print Assumptions C12_twisted_tcp_escapes.
+Proof. intros FS Req Resp World E. exact (twisted_escapes FS Req Resp World E). Qed.
+Print Assumptions C12_twisted_escapes.
 
 (* witness: "truncated PDU -> struct.error escapes" in the toy environment *)
 Theorem C12_twisted_tcp_refuted : ~ C12_total_statement TwTcp.
@@ -114,22 +114,30 @@ Proof.
 Qed.
 Print Assumptions C12_twisted_tcp_refuted.
 
-Theorem C12_twisted_tcp_partial :
-  forall (FS Req Resp World : Type) (E : env FS Req Resp World) c w cs bs,
-    (let '(ds, ff, exn) := e_recv _ _ _ _ E (fargs_for _ _ _ _ E (fc_loop code TwTcp) c w (is_empty bs)) (cs_f _ cs) bs in
-     snd (deliver _ _ _ _ E (fc_exec code TwTcp) c w ds ff exn []) = None) ->
-    snd (serve_step _ _ _ _ code E TwTcp c w cs (IData bs)) <> Escape.
-Proof. exact twisted_tcp_partial. Qed.
-Print Assumptions C12_twisted_tcp_partial.
-
-(* Twisted UDP: every datagram raises TypeError before the framer is reached; nothing is sent,
-   nothing changes *)
-Theorem C12_twisted_udp_refuted :
-  forall (FS Req Resp World : Type) (E : env FS Req Resp World) c w cs i,
-    let r := serve_step _ _ _ _ code E TwUdp c w cs i in
-    fst (fst (fst r)) = w /\ cs_f _ (snd (fst (fst r))) = cs_f _ cs /\ snd (fst r) = [] /\ snd r = Escape.
-Proof. exact twisted_udp_dead. Qed.
+(* the Twisted datagram server (alive since /repo b36db33) has the same defect *)
+Theorem C12_twisted_udp_refuted : ~ C12_total_statement TwUdp.
+Proof.
+  intro H.
+  apply (H nat Z Z (list Z) toy_env toy_cfg (fresh_server _ _ _ _ toy_env []) O (IData [0%N; 3%N])).
+  vm_compute. reflexivity.
+Qed.
 Print Assumptions C12_twisted_udp_refuted.
+
+Theorem C12_twisted_partial :
+  forall (FS Req Resp World : Type) (E : env FS Req Resp World) fe c w cs bs, tw_fe fe ->
+    (let '(ds, ff, exn) := e_recv _ _ _ _ E (fargs_for _ _ _ _ E (fc_loop code fe) c w (is_empty bs)) (cs_f _ cs) bs in
+     snd (deliver _ _ _ _ E (fc_exec code fe) c w ds ff exn []) = None) ->
+    snd (serve_step _ _ _ _ code E fe c w cs (IData bs)) <> Escape.
+Proof. intros FS Req Resp World E. exact (twisted_partial FS Req Resp World E). Qed.
+Print Assumptions C12_twisted_partial.
+
+(* fixed by /repo b36db33: no datagram raises before the framer is reached any more, and the framer
+   gets the unit list and the single flag *)
+Theorem C12_twisted_udp_alive :
+  pre_raise (fc_loop code TwUdp) = None /\ ls_units (fc_loop code TwUdp) = UnitsRaw /\
+  ls_single (fc_loop code TwUdp) = true.
+Proof. exact twisted_udp_alive. Qed.
+Print Assumptions C12_twisted_udp_alive.
 
 (* --- the shared state changes only through executed requests --------------------------- *)
 
